@@ -182,3 +182,38 @@ package car
 //@   closure[0]
 //@     ensures sets_the_flag [C02,C09]: cr.errorOnEmptyRoots == flag && result == nil
 //@   end
+
+// Accessors of a prepared selective car and the thin entry points (C15): what Prepare computed is what is reported.
+
+//@ func (SelectiveCarPrepared).Size
+//@   ensures the_size_prepare_computed [C15]: result == sc.size
+
+//@ func (SelectiveCarPrepared).Header
+//@   ensures the_header_prepare_recorded [C15]: result.Version == sc.header.Version && result.Roots == sc.header.Roots
+
+//@ func (SelectiveCarPrepared).Cids
+//@   ensures the_cids_prepare_recorded [C15]: result == sc.cids
+
+//@ func NewSelectiveCar
+//@   let o := call[applyOptions#0]
+//@   ensures keeps_what_it_was_given [C15]: result.ctx == ctx && ref(result.store) == ref(store) && result.dags == dags && result.opts.TraverseLinksOnlyOnce == o.TraverseLinksOnlyOnce && result.opts.MaxTraversalLinks == o.MaxTraversalLinks
+
+//@ func WriteCar
+//@   call[WriteCarWithWalker#0] assert same_arguments_default_walk [C01,C15]: arg0 == ctx && ref(arg1) == ref(ds) && arg2 == roots && ref(arg3) == ref(w) && arg5 == options
+
+//@ func applyOptions
+//@   loop[0] invariant untouched_without_options [C15]: len(opt) == 0 ==> cur(opts).TraverseLinksOnlyOnce == false && cur(opts).MaxTraversalLinks == 9223372036854775807
+//@   check applies_every_option [C15]: rangeindex == len(opt)
+//@   ensures defaults_without_options [C15]: len(opt) == 0 ==> result.TraverseLinksOnlyOnce == false && result.MaxTraversalLinks == 9223372036854775807
+
+//@ func TraverseLinksOnlyOnce
+//@   closure[0]
+//@     ensures sets_its_field [C15]: sco.TraverseLinksOnlyOnce == true
+//@     ensures touches_nothing_else [C15]: sco.MaxTraversalLinks == old(sco.MaxTraversalLinks)
+//@   end
+
+//@ func MaxTraversalLinks
+//@   closure[0]
+//@     ensures sets_its_field [C15]: sco.MaxTraversalLinks == MaxTraversalLinks
+//@     ensures touches_nothing_else [C15]: sco.TraverseLinksOnlyOnce == old(sco.TraverseLinksOnlyOnce)
+//@   end
